@@ -78,6 +78,9 @@ def run(chk):
     for a, b, m in compound.pairs(ops=["with", "minus", "times", "over"] if quick else None):
         cases.append({"src": a, "meta": dict(m, form="compound")})
     cases += [{"src": c["src"], "meta": {"corpus": c.get("note")}} for c in corpus_cases("exec")]
+    # values that only arise after many steps or at the edges of a representation
+    from . import gen_longcalc
+    cases += [{"src": c["src"], "meta": {"op": c["meta"]}} for c in gen_longcalc.programs(quick)]
     recs = execsuite.run(chk, cases, "expr", suite_name="EXEC-expr")
     record_exec(chk, recs, sig=lambda r: (str(r["case"].get("meta")), outcome_class(r["impl"].get("debug", ""))))
     # (3) generated programs with nested expressions in every statement position
@@ -87,6 +90,8 @@ def run(chk):
     chk.rule = ("(1) exhaustive U x U for + - * / equality ordering, U for negate/truthiness/printing/inc, through the Val API; "
                 "(2) one-line programs: every operator (a random alias per pair in quick, two in thorough) on every ordered pair of "
                 "source-level values incl. NaN/inf/-0/arrays with dictionaries, unary ops, compound assignment with list operands, "
-                "inc/dec, and/or/nor with a printing function as right operand (short-circuit observable); (3) generated programs. "
+                "inc/dec, and/or/nor with a printing function as right operand (short-circuit observable), running sums / products / counters "
+                "over 0..1025 iterations, counters across 2^53 / 2^32 / 1e21, strings / arrays / dictionaries grown by loops, repetition "
+                "counts and code points at every boundary, number -> text -> number, every radix; (3) generated programs. "
                 "distinct = (operation, operand names, outcome class) signatures")
     conclude(chk, "C03", proved)
